@@ -43,6 +43,16 @@ pub fn selftest(prop: &str) -> bool {
     V.get_or_init(|| std::env::var("VMON_SELFTEST_BREAK").unwrap_or_default()) == prop
 }
 
+/// record a distinct non-trivial case; capped per shard so that the shard report stays small in
+/// the thorough tier (the merged count is then a lower bound)
+pub fn nt(sh: &mut vmon_core::Shard, h: u64) {
+    if sh.distinct.len() < 150_000 {
+        sh.nontrivial(h);
+    } else {
+        sh.hit("distinct.cap_reached");
+    }
+}
+
 pub fn hex_sig(b: &[u8]) -> String {
     if b.len() <= 2048 {
         vmon_core::hex(b)
